@@ -6,9 +6,12 @@ import (
 	"bytes"
 	"fmt"
 	"log"
+	"mime"
 	"net"
+	"net/mail"
 	"os"
 	"runtime"
+	"runtime/debug"
 	"strconv"
 	"strings"
 	"sync"
@@ -86,6 +89,40 @@ func init() {
 		}
 		return Obs{"lines": out}
 	})
+	// sql_exec: {"op":"sql_exec","q":"UPDATE users SET enabled = 0 WHERE username = ?","args":["bob"]}
+	// a write to the SHARED database of this scenario — used to put rows into states that no protocol command
+	// produces (a disabled account, a password that was never initialised, a disabled domain / role mailbox)
+	register("sql_exec", func(w *World, op Op) Obs {
+		args := []interface{}{}
+		for _, a := range op.strs("args") {
+			args = append(args, a)
+		}
+		res, err := w.mgr.GetSharedDB().Exec(op.str("q"), args...)
+		if err != nil {
+			return Obs{"error": err.Error()}
+		}
+		n, _ := res.RowsAffected()
+		return Obs{"rows": n}
+	})
+	// max_stack: {"op":"max_stack","mb":64} — runtime/debug.SetMaxStack: an unbounded recursion ends in the
+	// runtime's fatal "stack overflow" (which no recover() catches) after 64 MB instead of after 1 GB
+	register("max_stack", func(w *World, op Op) Obs {
+		old := debug.SetMaxStack(op.num("mb", 64) << 20)
+		return Obs{"old": old}
+	})
+	// mailParse: what net/mail.ParseAddressList + the encoded-word encoding of the display names answer for
+	// a header value (the [mail_parse] parameter of Model/Slicers.v): null = error or empty list
+	calls["c12MailParse"] = func(a []string, n []int) interface{} {
+		list, err := mail.ParseAddressList(a[0])
+		if err != nil || len(list) == 0 {
+			return nil
+		}
+		out := [][]string{}
+		for _, x := range list {
+			out = append(out, []string{bs(mime.QEncoding.Encode("utf-8", x.Name)), bs(x.Address)})
+		}
+		return out
+	}
 	// seqset_calls: {"op":"seqset_calls","user":"u@example.com","mailbox":"INBOX","sets":[...],"uid":bool}
 	// direct calls of utils.ParseSequenceSetWithDB / ParseUIDSequenceSetWithDB against the store of
 	// this scenario, each under recover and timed -> {"rs":[{"n":len,"ms":..}|{"panic":..}]}
